@@ -341,6 +341,8 @@ class StmtMixin:
             env.update(fr.env)
             env['_i'] = SInt(i)
             env['_n'] = SInt(n)
+            if seq is not None:
+                env['_seq'] = seq        # the sequence being iterated (when the loop iterates an expression that has no name)
             if self.yielded is not None:
                 env['_out'] = self.yielded
             return self.eval_contract_conjuncts(inv, env)
